@@ -51,7 +51,7 @@ def letters(L, aliases=True):
 def bounds(tier, seed):
     if tier == "quick":
         return {"Lmax": 4, "depth_full": 3, "extra_block": "depth 4, first two letters fixed by VERIF_SEED, L=3"}
-    return {"Lmax": 5, "depth_full": 4, "depth_no_aliases": 5, "Lmax_depth5": 3}
+    return {"Lmax": 5, "depth_full": "4 for L<=3, 3 for L in 4..5", "depth_no_aliases": 5, "Lmax_depth5": 1}
 
 
 def plan(tier, seed):
@@ -71,8 +71,8 @@ def plan(tier, seed):
             nl = len(letters(L))
             shards.append(("hist", L, None, 0, True))
             for first in range(nl):
-                shards.append(("hist", L, first, 4, True))
-        for L in range(0, 4):
+                shards.append(("hist", L, first, 4 if L <= 3 else 3, True))
+        for L in range(0, 2):
             nl = len(letters(L, False))
             for first in range(nl):
                 shards.append(("hist", L, first, 5, False))
